@@ -57,6 +57,9 @@ func genErrSpec(r *Rand) *ErrSpec {
 		order += "w"
 	}
 	e.Order = order
+	if r.Chance(1, 10) {
+		e.Wraps = r.Pick("eof", "unexpected-eof", "closed-pipe", "net-closed", "epipe", "econnreset")
+	}
 	if r.Chance(1, 8) {
 		// several causes joined into one error value: still one failure
 		for n := r.Range(1, 2); n > 0; n-- {
